@@ -13,10 +13,12 @@ Labels (also the wire format of the Lean driver, see lean/Driver/C07.lean):
   c<t>      task t is cancelled (Task.cancel())
   m<t>      the connect-timeout timer of task t fires (asyncio.timeout._on_timeout)
   r<t>/x<t> the connection handed to task t is released to the pool / closed
-  l<c>      idle connection number c is lost (peer closed it while pooled)
+  l<c>      connection number c is lost (the peer closed it) while pooled or while in use
   C         connector._close_immediately()
   p<k0>.<k1>...  the order `random.shuffle` will give to the waiter queues from now on
   t<t>      the trace callback task t is suspended in returns
+  a<d>      d seconds pass on the connector's clock (`monotonic`, virtual)
+  S         the keep-alive timer fires: connector._cleanup() (only if it is armed)
 
 Trace hooks: with `mask != 0` every connect() gets a real `aiohttp.tracing.Trace` whose TraceConfig has, for
 each selected hook (bit 0 on_connection_reuseconn, 1 queued_start, 2 queued_end, 3 create_start,
@@ -93,7 +95,7 @@ def _host_index(key):
 class Pool:
     """one scenario: N tasks with fixed keys on a real BaseConnector(limit, limit_per_host)"""
 
-    def __init__(self, limit, lph, keys, mask=0):
+    def __init__(self, limit, lph, keys, mask=0, ka=15):
         import aiohttp.connector as connector_mod
         from aiohttp import ClientTimeout
         from aiohttp.client_reqrep import ClientRequestBase
@@ -107,12 +109,15 @@ class Pool:
         self.loop.set_exception_handler(lambda l, c: self.excs.append(c))
         asyncio.set_event_loop(self.loop)
         asyncio.events._set_running_loop(self.loop)
+        self._real_monotonic = connector_mod.monotonic
+        connector_mod.monotonic = lambda: self.clock
         self._real_random = connector_mod.random
         self.shuf = _Shuffle(self._real_random)
         connector_mod.random = self.shuf
         self.keys = list(keys)
         self.nkeys = max(self.keys) + 1 if self.keys else 1
         self.mask = mask
+        self.clock = 0.0           # what `monotonic()` returns inside aiohttp.connector
         self.trace_wait = {}       # tid -> (hook letter, future) while suspended in a trace callback
         self.created_by = {}       # tid -> cid of the connection its attempt produced
         self.attempt = {}          # tid -> future of the running connection attempt
@@ -139,7 +144,7 @@ class Pool:
                 proto.connection_made(tr)
                 return proto
 
-        self.conn = Connector(limit=limit, limit_per_host=lph)
+        self.conn = Connector(limit=limit, limit_per_host=lph, keepalive_timeout=ka)
         self.reqs = []
         for t, k in enumerate(self.keys):
             r = ClientRequestBase("GET", URL(f"http://h{k}/"), headers=CIMultiDict(), loop=self.loop, ssl=True)
@@ -252,7 +257,7 @@ class Pool:
             if cid < len(self.transports):
                 tr = self.transports[cid]
                 idle = any(p is tr.proto for q in self.conn._conns.values() for p, _ in q)
-                if idle and not tr.closing:
+                if (idle or tr.proto in self.conn._acquired) and not tr.closing:
                     tr.closing = True
                     tr.lost = True
                     tr.proto.connection_lost(None)
@@ -263,6 +268,11 @@ class Pool:
             w = self.trace_wait.get(t)
             if w is not None and not w[1].done():
                 w[1].set_result(None)
+        elif op == "a":
+            self.clock += int(arg)
+        elif op == "S":
+            if self.conn._cleanup_handle is not None:
+                self.conn._cleanup()
         elif op == "p":
             self.shuf.perm = [int(x) for x in arg.split(".")] if arg else []
         else:
@@ -369,7 +379,7 @@ class Pool:
         return (f"acq={len(c._acquired)} ph={ph} host={per(c._acquired_per_host)} wq={wq} "
                 f"idle={idle} ready={'.'.join(map(str, self.ready())) or '-'} "
                 f"tasks={','.join(self.task_state(t) for t in range(len(self.tasks)))} open={open_tr} "
-                f"closed={'1' if c._closed else '0'}")
+                f"closed={'1' if c._closed else '0'} timer={'1' if c._cleanup_handle is not None else '0'}")
 
     def enabled(self):
         """labels that can change the state now (used by the generators)"""
@@ -399,8 +409,13 @@ class Pool:
             for p, _ in q:
                 if p.is_connected():
                     out.append(f"l{self._cid(p)}")
+        for p in self.conn._acquired:
+            if not isinstance(p, self.mod._TransportPlaceholder) and p.is_connected():
+                out.append(f"l{self._cid(p)}")
         if not self.conn._closed:
             out.append("C")
+        if self.conn._cleanup_handle is not None:
+            out.append("S")
         return out
 
     # ------------------------------------------------------------------ oracle side facts
@@ -415,7 +430,8 @@ class Pool:
                 per[self.keys[t]] += 1
         for t in range(len(self.tasks)):
             c = self.conn_of(t)
-            if c is not None and c._protocol is not None and c._protocol.is_connected():
+            # handed out and not yet given back (even if the peer has closed it meanwhile: the slot is the holder's)
+            if c is not None and c._protocol is not None and (c._protocol.is_connected() or not self.conn._closed):
                 per[self.keys[t]] += 1
         return sum(per), per
 
@@ -439,6 +455,7 @@ class Pool:
             self.conn._close_immediately()
         finally:
             self.mod.random = self._real_random
+            self.mod.monotonic = self._real_monotonic
             asyncio.events._set_running_loop(None)
             asyncio.set_event_loop(None)
             for h in self.loop._scheduled:
@@ -447,9 +464,9 @@ class Pool:
             self.loop.close()
 
 
-def run_labels(limit, lph, keys, labels, observe=None, mask=0):
+def run_labels(limit, lph, keys, labels, observe=None, mask=0, ka=15):
     """perform the labels; returns the list of projections (one per label)"""
-    p = Pool(limit, lph, keys, mask)
+    p = Pool(limit, lph, keys, mask, ka)
     out = []
     try:
         for lab in labels:
